@@ -250,6 +250,10 @@ def cond(t, pol=True):
         if lo is not None and hi is not None:
             inside = ('bin', '&&', ('bin', '<=', lo, x), ('bin', '<=' if incl else '<', x, hi))
             return cond(inside, pol)
+    if k == 'matches' and len(t) >= 4:
+        # matches!(x, P): the pattern test itself (t = ('matches', subject term, predicate, type))
+        p = t[2]
+        return [(S.show(t[1]), p if pol else negate_pred(p, t[3]))]
     if k == 'call' and t[1] in _TESTS and len(t[2]) == 1:
         p = _TESTS[t[1]]
         return [(S.show(t[2][0]), p if pol else negate_pred(p))]
@@ -477,4 +481,20 @@ def contradictory(conds):
                 if all(pat_disjoint(a, b) for a in pos[i] for b in pos[j]):
                     return True
     return False
+
+
+def branches(t, pol=True):
+    """The ways boolean term t can come out as `pol`, as the short-circuit evaluation decides them: a list of literal
+    lists. `a && b` fails as [!a] or [a, !b]; `a || b` holds as [a] or [!a, b] -- the same paths nested ifs would give."""
+    if t is not None and t[0] == 'un' and t[1] == '!':
+        return branches(t[2], not pol)
+    if t is not None and t[0] == 'bin' and t[1] in ('&&', '||'):
+        a, b = t[2], t[3]
+        conj = (t[1] == '&&')
+        if conj == pol:
+            # both operands decide: a && b true / a || b false
+            return [x + y for x in branches(a, pol) for y in branches(b, pol)]
+        # one operand suffices: a && b false / a || b true
+        return branches(a, pol) + [x + y for x in branches(a, not pol) for y in branches(b, pol)]
+    return [cond(t, pol)]
 
